@@ -569,13 +569,10 @@ theorem step1_app_store (retry : Cl → Option (Cl × Res)) (nx : Nat) (c : Cl) 
 /-- … and when its ratchet generation was used already (a second offer): Unprocessable, a Failed record, nothing else -/
 theorem step1_app_dup (retry : Cl → Option (Cl × Res)) (nx : Nat) (c : Cl) (e : Ev) (mid ts tok : Nat)
     (hg : routes c e = true) (hact : c.g.active = true) (ho : outerOpens (withSecret c).g e = true)
-    (hk : e.kind = .app mid ts tok) (hle : epochOf e.path ≤ epochOf c.g.path)
-    (hpast : epochOf e.path < epochOf c.g.path → c.g.past.contains e.path = true)
+    (hk : e.kind = .app mid ts tok) (_hle : epochOf e.path ≤ epochOf c.g.path)
+    (_hpast : epochOf e.path < epochOf c.g.path → c.g.past.contains e.path = true)
     (hf : (e.sender == c.id) = false) (hc : e.cipher ∈ c.g.consumed) :
     step1 retry nx c e = failUnprocessable (withSecret c) e := by
-  have h1 : ¬ epochOf c.g.path < epochOf e.path := by omega
-  have h2 : ¬ (epochOf e.path < epochOf c.g.path ∧ ¬ e.path ∈ c.g.past) := by
-    intro ⟨a, b⟩; exact b (by simpa using hpast a)
   unfold step1
   simp [hg, hact, ho, hk, hf, hc]
 
